@@ -6,6 +6,7 @@ package main
 
 import (
 	"context"
+	"time"
 	"encoding/json"
 	"unicode/utf8"
 	"crypto/md5"
@@ -116,20 +117,57 @@ func isFormatErr(err error) bool {
 	return err != nil && strings.Contains(err.Error(), "invalid config format")
 }
 
-// guarded calls: a panic inside the library is an observation, not a harness crash
+// guarded calls: a panic inside the library is an observation, not a harness crash,
+// and neither is a wedge (a lock that is never released, a blocked channel): every
+// library call runs under a watchdog and a call that does not return within
+// opTimeout becomes an oracle failure "hang" with the history as replay.
+const opTimeout = 10 * time.Second
+
+// wedged counts calls that did not return; after a few of them the run stops generating
+// (each further case would wait for the watchdog again) and reports what it has.
+var wedged int
+
+type hung struct{}
+
+func (hung) String() string { return "the call did not return within 10s (wedged: lock never released?)" }
+
+// guard runs f; pan is the recovered panic value, or hung{} when f did not return.
+func guard(f func()) (pan any) {
+	done := make(chan any, 1)
+	go func() {
+		defer func() { done <- recover() }()
+		f()
+	}()
+	select {
+	case p := <-done:
+		return p
+	case <-time.After(opTimeout):
+		wedged++
+		return hung{}
+	}
+}
+
+// sigOf names the oracle signature of a guarded call that did not end normally.
+func sigOf(pan any) string {
+	if _, ok := pan.(hung); ok {
+		return "hang"
+	}
+	return "panic"
+}
+
 func safeGet(fs *credentials.FileStore, a string) (c auth.Credential, err error, pan any) {
-	defer func() { pan = recover() }()
-	c, err = fs.Get(context.Background(), a)
+	pan = guard(func() { c, err = fs.Get(context.Background(), a) })
+	if pan != nil {
+		c, err = auth.EmptyCredential, nil
+	}
 	return
 }
 func safePut(fs *credentials.FileStore, a string, c auth.Credential) (err error, pan any) {
-	defer func() { pan = recover() }()
-	err = fs.Put(context.Background(), a, c)
+	pan = guard(func() { err = fs.Put(context.Background(), a, c) })
 	return
 }
 func safeDelete(fs *credentials.FileStore, a string) (err error, pan any) {
-	defer func() { pan = recover() }()
-	err = fs.Delete(context.Background(), a)
+	pan = guard(func() { err = fs.Delete(context.Background(), a) })
 	return
 }
 
@@ -191,6 +229,9 @@ func toHostnameOracle(addr string) string {
 
 // runHistory executes one history against the real FileStore.
 func runHistory(hc histCase) {
+	if wedged >= 3 {
+		return
+	}
 	id := run.NewID()
 	base, err := os.MkdirTemp("", "c18h")
 	if err != nil {
@@ -348,7 +389,7 @@ func runHistory(hc histCase) {
 		case "G":
 			c, err, pan := safeGet(fs, o.Addr)
 			if pan != nil {
-				fail("panic", fmt.Sprintf("Get(%q) panicked: %v", o.Addr, pan))
+				fail(sigOf(pan), fmt.Sprintf("Get(%q) panicked or hung: %v", o.Addr, pan))
 				run.Evaluations++
 				return
 			} else if err != nil {
@@ -385,7 +426,7 @@ func runHistory(hc histCase) {
 			err, pan := safePut(fs, o.Addr, o.cred())
 			res = resultStr(nil, err)
 			if pan != nil {
-				fail("panic", fmt.Sprintf("Put(%q) panicked: %v", o.Addr, pan))
+				fail(sigOf(pan), fmt.Sprintf("Put(%q) panicked or hung: %v", o.Addr, pan))
 				run.Evaluations++
 				return
 			}
@@ -434,12 +475,9 @@ func runHistory(hc histCase) {
 		case "C": // Config.SetCredentialsStore(o.Addr)
 			var err error
 			var pan any
-			func() {
-				defer func() { pan = recover() }()
-				err = credentials.VerifSetCredentialsStore(fs, o.Addr)
-			}()
+			pan = guard(func() { err = credentials.VerifSetCredentialsStore(fs, o.Addr) })
 			if pan != nil {
-				fail("panic", fmt.Sprintf("SetCredentialsStore(%q) panicked: %v", o.Addr, pan))
+				fail(sigOf(pan), fmt.Sprintf("SetCredentialsStore(%q) panicked or hung: %v", o.Addr, pan))
 				run.Evaluations++
 				return
 			}
@@ -462,7 +500,7 @@ func runHistory(hc histCase) {
 			err, pan := safeDelete(fs, o.Addr)
 			res = resultStr(nil, err)
 			if pan != nil {
-				fail("panic", fmt.Sprintf("Delete(%q) panicked: %v", o.Addr, pan))
+				fail(sigOf(pan), fmt.Sprintf("Delete(%q) panicked or hung: %v", o.Addr, pan))
 				run.Evaluations++
 				return
 			}
